@@ -1782,6 +1782,10 @@ func (d *Data) sendJSONValuesInRange(ctx storage.VersionedCtx, w http.ResponseWr
 
 			for i := begI; i < endI; i++ {
 				mdb.mu.RLock()
+				if i >= len(mdb.ids) { // annotations were deleted since the range was computed
+					mdb.mu.RUnlock()
+					break
+				}
 				bodyid := mdb.ids[i]
 				jsonData, ok := mdb.data[bodyid]
 				mdb.mu.RUnlock()
